@@ -238,6 +238,10 @@ def _hyper(spec, rs):
             out[k] = int(rs.randint(1, 1000))
         elif k == "grid":
             out[k] = rs.standard_normal(3)
+        elif r == 0:
+            out[k] = rs.standard_normal(1)                    # a one-element vector (a per-trait entry of a single-trait model)
+        elif r == 1:
+            out[k] = rs.standard_normal((1, 1))               # a 1 x 1 matrix (a covariance of a single-trait model)
         else:
             out[k] = float(rs.standard_normal())
     if spec.get("hyper_str"):
